@@ -16,8 +16,10 @@ package memoryevict
 //@   requires forall i int :: {pods[i]} 0 <= i && i < len(pods) ==> pods[i] != nil
 //@   ensures #eligible: forall j int :: {result[j]} 0 <= j && j < len(result) ==> result[j] != nil && extension.podQoS(result[j].Pod) == extension.QoSBE && qosmanagerUtil.policyAllowed(evictionPolicy, result[j].Pod)
 //@   ensures #from: forall j int :: {result[j]} 0 <= j && j < len(result) ==> (exists i int :: 0 <= i && i < len(pods) && pods[i].Pod == result[j].Pod)
+//@   ensures #evictionpriority: forall j int :: {result[j]} 0 <= j && j < len(result) ==> result[j].EvictionPriority == extension.podEvictionPrio(result[j].Pod)    // first sort key = the parsed annotation (0 when unset / invalid)
 //@   loop 1 invariant 0 <= $i && $i <= len(pods)
 //@   loop 1 invariant forall j int :: {bePodInfos[j]} 0 <= j && j < len(bePodInfos) ==> bePodInfos[j] != nil
+//@   loop 1 invariant forall j int :: {bePodInfos[j]} 0 <= j && j < len(bePodInfos) ==> fresh(bePodInfos[j]) && bePodInfos[j].EvictionPriority == extension.podEvictionPrio(bePodInfos[j].Pod)
 //@   loop 1 invariant forall j int :: {bePodInfos[j]} 0 <= j && j < len(bePodInfos) ==> extension.podQoS(bePodInfos[j].Pod) == extension.QoSBE
 //@   loop 1 invariant forall j int :: {bePodInfos[j]} 0 <= j && j < len(bePodInfos) ==> qosmanagerUtil.policyAllowed(evictionPolicy, bePodInfos[j].Pod)
 //@   loop 1 invariant forall j int :: {bePodInfos[j]} 0 <= j && j < len(bePodInfos) ==> (exists i int :: 0 <= i && i < $i && pods[i].Pod == bePodInfos[j].Pod)
@@ -72,3 +74,45 @@ package memoryevict
 //@   requires apiext.rangesOK() && apiext.DefaultPriorityClass == apiext.PriorityNone
 //@   requires thresholdConfig != nil && thresholdConfig.AllocatableEvictPriorityThreshold != nil
 //@   ensures #eligible: forall j int :: {result[j]} 0 <= j && j < len(result) ==> result[j] != nil && result[j].Priority <= old(deref(thresholdConfig.AllocatableEvictPriorityThreshold)) && result[j].Priority == apiext.podPrioValue(result[j].Pod) && apiext.evictEnabled(result[j].Pod) && qosmanagerUtil.policyAllowed(evictionPolicy, result[j].Pod)
+
+// ---- published victim order: the sort.Slice comparators ----
+// sort.Slice itself is not modelled; each comparator ("element i goes before element j") carries its functional contract.
+// Priority-threshold lists: eviction priority (annotation koordinator.sh/eviction-priority) ascending, then pod priority
+// ascending, then the koordinator.sh/priority label ascending, then the strategy's sub-order (the closure passed by
+// ...ByUsed / ...ByAllocatable below: memory used resp. memory request descending), which is consulted on a full tie only.
+//@ func (*memoryEvictor).getPodEvictInfoAndSortByPriority$1 [C11]
+//@   let a = deref($fv_podsInfos)[i]
+//@   let b = deref($fv_podsInfos)[j]
+//@   ensures #order: result <==> (a.EvictionPriority < b.EvictionPriority || (a.EvictionPriority == b.EvictionPriority && (a.Priority < b.Priority || (a.Priority == b.Priority && (a.LabelPriority < b.LabelPriority || (a.LabelPriority == b.LabelPriority && lastresult("subSortFun")))))))
+//@   ensures #sub: calls("subSortFun") == (a.EvictionPriority == b.EvictionPriority && a.Priority == b.Priority && a.LabelPriority == b.LabelPriority ? 1 : 0)
+//@   assert before call subSortFun: #subargs: $arg0 == a && $arg1 == b
+//@   modifies nothing
+//@   option observers subSortFun
+
+// MemoryEvict / CPUEvict: among equal priorities the pod using more goes first.
+//@ func (*memoryEvictor).getPodEvictInfoAndSortByUsed$1 [C11]
+//@   ensures #order: result <==> a.MemoryUsed > b.MemoryUsed
+//@   modifies nothing
+
+// MemoryAllocatableEvict / CPUAllocatableEvict: among equal priorities the pod requesting more goes first.
+//@ func (*memoryEvictor).getPodEvictInfoAndSortByAllocatable$1 [C11]
+//@   ensures #order: result <==> a.MemoryRequest > b.MemoryRequest
+//@   modifies nothing
+
+// BE memory list: eviction priority (parsed annotation, see #evictionpriority of getSortedBEPodInfos) ascending, then pod
+// priority ascending (compared only when both pods carry one and they differ), then memory used descending with idle
+// pods (used 0) last, idle pods among themselves by name descending.
+//@ func (*memoryEvictor).getSortedBEPodInfos$1 [C11]
+//@   let a = deref($fv_bePodInfos)[i]
+//@   let b = deref($fv_bePodInfos)[j]
+//@   let pa = a.Pod.Spec.Priority
+//@   let pb = b.Pod.Spec.Priority
+//@   let byprio = pa != nil && pb != nil && deref(pa) != deref(pb)
+//@   let byev = a.EvictionPriority != b.EvictionPriority
+//@   ensures #evictionpriority: byev ==> (result <==> a.EvictionPriority < b.EvictionPriority)
+//@   ensures #priority: !byev && byprio ==> (result <==> deref(pa) < deref(pb))
+//@   ensures #usage: !byev && !byprio && a.MemoryUsed != 0 && b.MemoryUsed != 0 ==> (result <==> a.MemoryUsed > b.MemoryUsed)
+//@   ensures #idlelast: !byev && !byprio && (a.MemoryUsed == 0) != (b.MemoryUsed == 0) ==> (result <==> b.MemoryUsed == 0)
+//@   ensures #desc: !byev && !byprio && a.MemoryUsed >= 0 && b.MemoryUsed >= 0 && a.MemoryUsed != b.MemoryUsed ==> (result <==> a.MemoryUsed > b.MemoryUsed)
+//@   ensures #name: !byev && !byprio && a.MemoryUsed == 0 && b.MemoryUsed == 0 ==> (result <==> a.Pod.ObjectMeta.Name > b.Pod.ObjectMeta.Name)
+//@   modifies nothing
